@@ -30,7 +30,7 @@ SETTINGS = [
     ("rnd", ["Random", {}], "real"),
 ]
 REWARDS = {"real": [-1.5, 0, 2, 1e6], "nonneg": [0, 1e-9, 1, 3], "binary": [0, 1]}
-LABELS = {"int": ([1, 2], 3), "str": (["b", "a"], "c")}
+LABELS = {"int": ([0, 2], 1), "str": (["b", ""], "c")}          # falsy labels (0, "") included on purpose
 
 
 def meta(tier, seed):
